@@ -558,7 +558,7 @@ func Spec() *mon.Spec {
 		},
 		ChildSetup: setup,
 		Phases: []mon.Phase{
-			{Name: "pool", Quick: 4000, Thorough: 80000, Run: runPool},
+			{Name: "pool", Quick: 12000, Thorough: 80000, Run: runPool},
 			{Name: "complex-candidate", Quick: 4, Thorough: 16, Run: runComplex},
 		},
 		Floors: map[string]int{"distinct_nontrivial": 1000, "triples": 2000000, "ordered_pairs": 100000, "uncomparable_pairs": 20000, "eq_pairs_distinct_entries": 5000,
